@@ -702,6 +702,44 @@ func main() {
 			t.Outcome("ok")
 		})
 
+		// A destination that takes only a few bytes per call and says nothing about it (a short
+		// count with a nil error - against the io.Writer contract, but seen in the wild): the caller
+		// resends what was not taken; the bytes that arrive are the stream under the formula.
+		r.Part("E3g-CipherWriter-over-a-destination-with-silent-short-writes", func(t *explore.T) {
+			key := keys[4]
+			for _, take := range []int{1, 2, 3, 5, 7} {
+				for _, sizes := range [][]int{{8, 8}, {20, 20}, {3, 9, 1, 11}, {16, 1, 16}, {70, 70}} {
+					take, sizes := take, sizes
+					t.Do(func() string {
+						return fmt.Sprintf("writes of %v bytes, destination takes at most %d bytes per call without an error", sizes, take)
+					}, func() *explore.Fail {
+						d := &silentShortDst{take: take}
+						cw := wsutil.NewCipherWriter(d, key)
+						var all []byte
+						for wi, sz := range sizes {
+							p := fill(sz, wi+1)
+							all = append(all, p...)
+							for guard := 0; len(p) > 0; guard++ {
+								n, err := cw.Write(p)
+								if n < 0 || n > len(p) || guard > 1000 || (n == 0 && err == nil) {
+									return explore.Failf("silent-short-writes:no-progress-or-bad-count", "n=%d err=%v", n, err)
+								}
+								p = p[n:]
+								if err != nil && n == 0 {
+									return explore.Failf("silent-short-writes:error-without-progress", "%v", err)
+								}
+							}
+						}
+						if want := refmodel.XOR(all, key, 0); !bytes.Equal(d.got, want) {
+							return explore.Failf("silent-short-writes:stream-not-the-formula", "first difference at byte %d of %d", firstDiff(d.got, want), len(want))
+						}
+						return nil
+					})
+				}
+			}
+			t.Outcome("ok")
+		})
+
 		// The masking the client-side fragmenting writer applies to its own buffer: whatever
 		// reaches the wire - also when a flush fails with a timeout and the application flushes
 		// again, once or twice - unmasks, with the key in its frame header, to bytes the caller wrote.
@@ -987,4 +1025,19 @@ func firstDiff(a, b []byte) int {
 		return len(a)
 	}
 	return len(b)
+}
+
+// silentShortDst takes at most take bytes per call and reports no error.
+type silentShortDst struct {
+	take int
+	got  []byte
+}
+
+func (d *silentShortDst) Write(p []byte) (int, error) {
+	n := d.take
+	if n > len(p) {
+		n = len(p)
+	}
+	d.got = append(d.got, p[:n]...)
+	return n, nil
 }
